@@ -104,13 +104,39 @@ def lake_build(targets, timeout=3000):
     return p.returncode == 0, log, first
 
 
-def property_theorems(prop):
-    path = os.path.join(LEAN, 'TonVerif/Properties', f'{prop}.lean')
+PROPERTY_MODULES = {}      # prop -> extra modules under TonVerif/Properties (SPEC['property_modules']), audited like <prop>.lean
+
+
+def property_modules(prop):
+    return [prop] + [m for m in PROPERTY_MODULES.get(prop, []) if m != prop]
+
+
+def _module_theorems(mod):
+    path = os.path.join(LEAN, 'TonVerif/Properties', f'{mod}.lean')
     body = _strip_comments(open(path).read())
-    ns = re.search(r'^namespace\s+(\S+)', body, re.M)
-    names = re.findall(r'^(?:protected\s+|private\s+)?theorem\s+([\w\.\']+)', body, re.M)
-    pre = (ns.group(1) + '.') if ns else ''
-    return [pre + n for n in names]
+    out = []
+    # theorems are qualified by the namespace that is open where they are declared (one level of `namespace X ... end X` blocks)
+    ns = []
+    for line in body.split('\n'):
+        m = re.match(r'^namespace\s+(\S+)', line)
+        if m:
+            ns.append(m.group(1))
+            continue
+        m = re.match(r'^end\s+(\S+)\s*$', line)
+        if m and ns and ns[-1] == m.group(1):
+            ns.pop()
+            continue
+        m = re.match(r'^(?:protected\s+|private\s+)?theorem\s+([\w\.\']+)', line)
+        if m:
+            out.append('.'.join(ns + [m.group(1)]))
+    return out
+
+
+def property_theorems(prop):
+    out = []
+    for mod in property_modules(prop):
+        out += _module_theorems(mod)
+    return out
 
 
 def audit_axioms(prop, extra_modules=()):
@@ -118,7 +144,7 @@ def audit_axioms(prop, extra_modules=()):
     thms = property_theorems(prop)
     if not thms:
         return False, {}, ['no theorems in property file']
-    src = f'import TonVerif.Properties.{prop}\n' + ''.join(f'#print axioms {t}\n' for t in thms)
+    src = ''.join(f'import TonVerif.Properties.{m}\n' for m in property_modules(prop)) + ''.join(f'#print axioms {t}\n' for t in thms)
     tmp = os.path.join(LEAN, f'.audit_{prop}_{os.getpid()}.lean')
     with open(tmp, 'w') as f:
         f.write(src)
@@ -177,6 +203,8 @@ class Model:
 
 # --------------------------------------------------------------------------- context
 
+THOROUGH_SCALE = {'C05': 4, 'C06': 8, 'C07': 8, 'C12': 4, 'C14': 4, 'C17': 3, 'C18': 8, 'C20': 2}
+
 class Ctx:
     def __init__(self, prop, tier, seed, search=False):
         self.prop = prop
@@ -204,7 +232,14 @@ class Ctx:
         return self.tier == 'thorough' or self.search
 
     def n(self, quick, thorough):
-        return thorough if self.thorough else quick
+        if not self.thorough:
+            return quick
+        # the thorough TIER (not the failing-input search of a quick run) multiplies its case counts: per-property default
+        # chosen so that a thorough run takes minutes, env VERIF_THOROUGH_SCALE on top (a long soak: VERIF_THOROUGH_SCALE=10)
+        if self.tier == 'thorough' and not self.search and isinstance(thorough, int):
+            k = THOROUGH_SCALE.get(self.prop, 1) * float(os.environ.get('VERIF_THOROUGH_SCALE', '1'))
+            return max(thorough, int(thorough * k))
+        return thorough
 
     @property
     def model(self):
@@ -379,7 +414,8 @@ def run_check(prop, tier, seed, replay=None):
             tie[name] = {'status': 'lost', 'reason': f'{type(e).__name__}: {e}'}
 
     # 2. build proofs + driver
-    targets = [f'TonVerif.Properties.{prop}', 'tonmodel'] + spec.get('lean_targets', [])
+    PROPERTY_MODULES[prop] = list(spec.get('property_modules', []))
+    targets = [f'TonVerif.Properties.{m}' for m in property_modules(prop)] + ['tonmodel'] + spec.get('lean_targets', [])
     ok, log, first = lake_build(targets)
     build_ok = ok
     if not ok:
@@ -404,7 +440,7 @@ def run_check(prop, tier, seed, replay=None):
         if hits:
             broken.append({'kind': 'forbidden-source', 'detail': '; '.join(hits)[:500]})
         if tier == 'thorough' and spec.get('leanchecker', True):
-            lok, lout = leanchecker([f'TonVerif.Properties.{prop}'])
+            lok, lout = leanchecker([f'TonVerif.Properties.{m}' for m in property_modules(prop)])
             tie['leanchecker'] = {'ok': lok}
             if not lok:
                 broken.append({'kind': 'leanchecker', 'detail': lout})
